@@ -35,7 +35,7 @@ func (d *distWitness) GetLatestCheckpoint(ctx context.Context, logID string) ([]
 }
 
 var witAnsKinds = []string{"valid", "missing", "wrongLogKey", "noWitSig", "badWitSig", "corrupted", "otherLog", "twoWitSigs"}
-var distAnsKinds = []string{"200", "404", "500", "conn", "redir307", "redir302", "201", "503then200", "502then200", "stall"}
+var distAnsKinds = []string{"200", "404", "500", "conn", "redir307", "redir302", "201", "503then200", "502then200", "503retryafter", "429retryafter", "stall"}
 
 type distStub struct {
 	mu     sync.Mutex
@@ -75,6 +75,10 @@ func (d *distStub) ServeHTTP(w http.ResponseWriter, r *http.Request) {
 		w.WriteHeader(200)
 	case "201":
 		w.WriteHeader(201)
+	case "503retryafter", "429retryafter": // "come back in an hour": this log's push failed, nothing else follows from it
+		w.Header().Set("Retry-After", []string{"3600", "Wed, 21 Oct 2093 07:28:00 GMT"}[nth%2])
+		w.WriteHeader(map[string]int{"503retryafter": 503, "429retryafter": 429}[d.plan[r.RequestURI]])
+		io.WriteString(w, "slow down\n")
 	case "503then200", "502then200": // a gateway in front of the distributor hiccups once
 		if nth == 1 {
 			w.WriteHeader(map[string]int{"503then200": 503, "502then200": 502}[d.plan[r.RequestURI]])
@@ -110,6 +114,9 @@ func scenarioDist(t *traceWriter, rng *rand.Rand) {
 		wname := names[0]
 		if rng.Intn(4) == 0 {
 			wname = names[rng.Intn(len(names))]
+		}
+		if ci%9 == 5 {
+			wname = keyA.name // the witness key carries the same NAME as a log key (another key): signatures are told apart by name AND key hash
 		}
 		wk := genWitKey(rng, wname, "cosigv1")
 		wk2 := genWitKey(rng, wname+"2", "cosigv1")
@@ -172,7 +179,7 @@ func scenarioDist(t *traceWriter, rng *rand.Rand) {
 					}
 				}
 				if round > 0 {
-					da = []string{"200", "200", "500", "conn"}[rng.Intn(4)]
+					da = []string{"200", "200", "500", "conn", "200", "200"}[rng.Intn(6)]
 					if rng.Intn(12) == 0 {
 						da = "stall"
 					}
